@@ -138,7 +138,6 @@ inductive ValRes where
   | zero                     -- ParseException: VAL gives 0
   | int (v : Int)            -- integral token in LONG range: VAL gives float(v)
   | flt (tok : Str)          -- VAL gives float(tok) (tok with d replaced by e, lower-cased)
-  | raises                   -- NumericLiteral.parse raises (escapes _exec_sdbl)
   | gray                     -- &H / &O literals, type characters: not modelled
   deriving Repr, DecidableEq
 
@@ -164,9 +163,10 @@ def valParse (s : Str) : ValRes :=
     if tok.contains 'd' then .flt (tok.map fun c => if c = 'd' then 'e' else c)
     else if tok.contains 'e' || tok.contains '.' then .flt tok
     else
-      -- LONG: int(token), must fit
+      -- LONG: int(token) when it fits; otherwise the text is not a legal literal and VAL falls back to float(text)
+      -- (as repaired)
       let v := signedVal tok
-      if v < -2147483648 || v > 2147483647 then .raises else .int v
+      if v < -2147483648 || v > 2147483647 then .flt tok else .int v
 
 /-! ### the ASCII fragment of Python `float(str)` syntax (READ / INPUT into SINGLE / DOUBLE) -/
 
